@@ -6,7 +6,7 @@
 From Coq Require Import ZArith NArith List Bool.
 Import ListNotations.
 From SV Require Import Common.Int32 C02.Kernels C02deep.Syntax C02deep.Sem C02deep.Passes
-  C02loop.Analysis C02loop.Licm C02loop.Algebraic C02loop.StrengthIv C02loop.Driver C02loop.Classes.
+  C02loop.Analysis C02loop.Licm C02loop.Algebraic C02loop.StrengthIv C02loop.Driver C02loop.Classes C02loop.Cover.
 Open Scope Z_scope.
 
 
@@ -142,6 +142,13 @@ Definition trap_cases_l (before after : func) : list N :=
     class predicates: (old code) hoisted DIV-MOD, (old code) guard variable still used, iv elimination fires,
                       inside the registered class known_iv, inside the exact class, derived base dropped, nested break;
     sanity runs reproduced; NOT reproduced; trap runs with the trace kept; trap runs with a lost trace] *)
+(* last column: the function is in the decidable domain of the function-level theorem
+   (ProofsCover.loop_pass_preserves_b: well formed, supply fresh and long enough - one more name is appended to the
+   real run's temporaries -, every loop outside the named classes) AND the model run with that supply returns the
+   real pass's output, i.e. the theorem says `refines_wrap after before` for this very pair *)
+Definition thm_case (sup : list name) (before after : func) : N :=
+  b2n (in_theorem_domain sup before &&
+       match loop_pass (extended_supply sup before) before with Some (m, _) => func_eqb m after | None => false end).
 Definition tie_case (sup : list name) (before after : func) : list N :=
   let wf := b2n (wf_func before) in
   let sc := sem_cases_l before after in
@@ -150,8 +157,8 @@ Definition tie_case (sup : list name) (before after : func) : list N :=
   match loop_pass sup before with
   | Some (m, fl) =>
       [(if func_eqb m after then 0 else 1)%N; wf; f_licm fl; f_extract fl; f_alg fl; f_ive fl; f_sr fl]
-      ++ cl ++ [count 1 sc; count 2 sc; count 1 tc; count 2 tc]
-  | None => [2%N; wf; 0%N; 0%N; 0%N; 0%N; 0%N] ++ cl ++ [count 1 sc; count 2 sc; count 1 tc; count 2 tc]
+      ++ cl ++ [count 1 sc; count 2 sc; count 1 tc; count 2 tc; thm_case sup before after]
+  | None => [2%N; wf; 0%N; 0%N; 0%N; 0%N; 0%N] ++ cl ++ [count 1 sc; count 2 sc; count 1 tc; count 2 tc; 0%N]
   end.
 Definition tie_cases (cs : list (list name * func * func)) : list (list N) :=
   map (fun c => tie_case (fst (fst c)) (snd (fst c)) (snd c)) cs.
